@@ -213,7 +213,7 @@ def check_module_memos(ctx, rule: str, consequence: str) -> None:
         globs = state.module_mutable_globals(mm.tree)
         cattrs = state.class_mutable_attrs(mm.tree)
         for q, f in mm.functions.items():
-            if q.rsplit(".", 1)[0] in mm.functions:
+            if "." in q and q.rsplit(".", 1)[0] in mm.functions:
                 continue            # a function defined inside another function: walked with its owner (methods of nested classes are not)
             n_fn += 1
             for (node, name, how) in (state.module_global_writes(f, globs) if globs else []):
